@@ -43,11 +43,12 @@ REQUIRED = [
     "DaeVerif.C13.Props.ep_retire_spec",
     "DaeVerif.C13.Props.ep_transport_closed_once_with_endpoint",
     "DaeVerif.C13.Props.ep_close_releases_once",
+    "DaeVerif.C13.Props.ep_single_dial",
 ]
 
-STREAMS = ["c13_tq", "c13_trk", "c13_drn", "c13_key", "c13_ep", "c13_epc"]
+STREAMS = ["c13_tq", "c13_trk", "c13_drn", "c13_key", "c13_ep", "c13_epc", "c13_lock"]
 HARNESS = ["control/c13_test.go", "control/c13_seq_test.go", "control/c13_ep_test.go"]
-RESET = {"c13_tq": "tq reset", "c13_trk": "trk reset", "c13_drn": "drn reset", "c13_ep": "ep reset", "c13_epc": "ep reset"}
+RESET = {"c13_tq": "tq reset", "c13_trk": "trk reset", "c13_drn": "drn reset", "c13_ep": "ep reset", "c13_epc": "ep reset", "c13_lock": "epc reset"}
 
 
 def segment(ops, impl, lineno, reset_prefix):
@@ -186,6 +187,15 @@ def run(ctx):
                                {"stream": name})
                     break
             distinct |= {("epc", o, i) for o, i in zip(ops, impl)}
+        elif name == "c13_lock":
+            for o, im in zip(ops, impl):
+                m = re.search(r"dials=(\d+)", im)
+                if m and int(m.group(1)) > 1:
+                    ctx.report("endpoint pool (real code): more than one dial for concurrent GetOrCreate calls on one key: " + im,
+                               {"stream": name, "schedule": segment(ops, impl, ops.index(o) + 1, "epc reset")})
+                    break
+            bounds = [i for i, o in enumerate(ops) if o.startswith("epc reset")] + [len(ops)]
+            distinct |= {("lock", hashlib.sha1("\n".join(ops[a:b]).encode()).hexdigest()) for a, b in zip(bounds, bounds[1:])}
         else:
             distinct |= {(name, o) for o in ops}
 
